@@ -116,6 +116,80 @@ def check_request_address(ctx, n):
             ctx.disagree('request_address', ln, e, o)
 
 
+def _rand_idx(rng):
+    r = rng.random()
+    if r < 0.4:
+        return rng.randrange(0, 12)
+    if r < 0.6:
+        return str(rng.randrange(0, 12))            # a digit string
+    return rng.choice(['GENROU_1', 'B2', 'x.y', 'G_%d' % rng.randrange(9), 'dev'])
+
+
+def check_borrowed_idx(ctx, n):
+    """Group.get on an idx-valued parameter (how ExtParam borrows `syn` of an exciter through the group) and
+    DataSelect on index fields, against `groupGetIdxVals` / `dataSelect`.  The oracle: the borrowed list must BE
+    the list of index fields of the named devices (same values, same types)."""
+    import numpy as np
+    from andes.core.service import DataSelect
+    ss = R.new_system()
+    rng = ctx.rng
+    vals = {}
+    for k in range(40):
+        v = _rand_idx(rng)
+        idx = ss.add('EXDC2', {'syn': v})
+        vals[idx] = v
+    keys = list(vals)
+    lines, exp = [], []
+    for _ in range(n):
+        pick = [rng.choice(keys) for _ in range(rng.choice([1, 2, 2, 3, 4]))]
+        want = [vals[i] for i in pick]
+        try:
+            got = ss.Exciter.get('syn', pick, 'v')
+            got = [g.item() if isinstance(g, np.generic) else g for g in got]
+            out = ','.join(R.enc_idx(g) for g in got)
+            same = len(got) == len(want) and all(type(a) is type(b) and a == b or
+                                                 (not isinstance(a, str) and not isinstance(b, str) and a == b)
+                                                 for a, b in zip(got, want))
+            if not same:
+                ctx.oracle_fail('group-get-coerces-numeric-string',
+                                'Group.get(%r) returned %r for the index fields %r: a digit-string index became a number '
+                                '(container typed by the first value) and now names another device' % ('syn', got, want),
+                                {'borrow': want})
+        except ValueError as e:
+            out = 'E'
+            ctx.oracle_fail('group-get-mixed-idx-types', 'Group.get raised %r for the index fields %r '
+                            '(container typed by the first, numeric, value)' % (e, want), {'borrow': want})
+        lines.append('gval ' + ','.join(R.enc_idx(v) for v in want))
+        exp.append(out)
+        ctx.count('borrow:' + ('error' if out == 'E' else 'ok'))
+    for _ in range(n):
+        k = rng.choice([1, 2, 3])
+        opt = [None if rng.random() < 0.5 else _rand_idx(rng) for _ in range(k)]
+        fb = [_rand_idx(rng) for _ in range(k)]
+
+        class P:
+            pass
+        o, f = P(), P()
+        o.v, f.v = opt, fb
+        try:
+            got = DataSelect(o, f).v
+            out = ','.join(R.enc_idx(g) for g in got)
+            if any(g != (a if a is not None else b) for g, a, b in zip(got, opt, fb)):
+                ctx.oracle_fail('dataselect-wrong', 'DataSelect%r -> %r' % ((opt, fb), got), {'dataselect': [opt, fb]})
+        except TypeError as e:
+            out = 'E'
+            ctx.oracle_fail('dataselect-string-idx', 'DataSelect raised %s for the optional index fields %r: np.isnan '
+                            'is applied to a string index' % (repr(e)[:60], opt), {'dataselect': [opt, fb]})
+        lines.append('dsel %s %s' % (','.join(R.enc_idx(v) for v in opt), ','.join(R.enc_idx(v) for v in fb)))
+        exp.append(out)
+        ctx.count('dataselect:' + ('error' if out == 'E' else 'ok'))
+    outs = ctx.driver.ask(lines)
+    for ln, e, o in zip(lines, exp, outs):
+        ctx.evaluations += 1
+        if e != o:
+            ctx.disagree('borrowed-idx', ln, e, o)
+
+
 def run(ctx):
     import andes
     andes.config_logger(stream_level=50)
@@ -125,6 +199,7 @@ def run(ctx):
     cases += [R.gen_case(ctx.rng) for _ in range(n)]
     check_cases(ctx, cases)
     check_request_address(ctx, ctx.n(200, 2000))
+    check_borrowed_idx(ctx, ctx.n(150, 1500))
     ctx.cov['source_hashes'] = {
         'System.set_address': C.hash_source(C.REPO + '/andes/system.py', 'System.set_address'),
         'System.set_dae_names': C.hash_source(C.REPO + '/andes/system.py', 'System.set_dae_names'),
@@ -158,6 +233,8 @@ def replay(ctx, rep):
     import andes
     andes.config_logger(stream_level=50)
     case = rep['case']
+    if isinstance(case, dict) and ('borrow' in case or 'dataselect' in case):
+        return replay_small(case)
     if isinstance(case, list):      # a request_address tuple
         from andes.variables.dae import DAE
         ss = andes.System(no_output=True, default_config=True, no_undill=True)
@@ -173,3 +250,32 @@ def replay(ctx, rep):
     for key, what in r['oracle']:
         print('  ', key, what)
     return not r['oracle']
+
+
+def replay_small(case):
+    import numpy as np
+    from andes.core.service import DataSelect
+    if 'borrow' in case:
+        ss = R.new_system()
+        want = case['borrow']
+        pick = [ss.add('EXDC2', {'syn': v}) for v in want]
+        try:
+            got = ss.Exciter.get('syn', pick, 'v')
+        except ValueError as e:
+            print('  Group.get raised', repr(e))
+            return False
+        got = [g.item() if isinstance(g, np.generic) else g for g in got]
+        print('  index fields', want, '-> borrowed', got)
+        return all(type(a) is type(b) and a == b for a, b in zip(got, want))
+    opt, fb = case['dataselect']
+
+    class P:
+        pass
+    o, f = P(), P()
+    o.v, f.v = opt, fb
+    try:
+        got = DataSelect(o, f).v
+    except TypeError as e:
+        print('  DataSelect raised', repr(e)[:100])
+        return False
+    return all(g == (a if a is not None else b) for g, a, b in zip(got, opt, fb))
